@@ -83,11 +83,14 @@ fn main() {
         "C09" => checks::c09::explore(&opts),
         "C10" => checks::c10::explore(&opts),
         "C11" => checks::c11::explore(&opts),
+        "C12" => checks::c12::explore(&opts),
         "C13" => checks::c13::explore(&opts),
+        "C14" => checks::c14::explore(&opts),
         "C15" => checks::c15::explore(&opts),
         "C16" => checks::c16::explore(&opts),
         "C17" => checks::c17::explore(&opts),
         "C18" => checks::c18::explore(&opts),
+        "C19" => checks::c19::explore(&opts),
         _ => usage(),
     };
     let mut fin = Finish::new(&opts, start, ex.local);
